@@ -545,9 +545,13 @@ and run_case_model (oc : out_channel) (c : case) : unit =
                               (nat_of_int (if ga = 1 then 2 else 0)) nattr eattr) ga na ea)
       | "gser" ->
           let (ns, es) = decompose keqb !h (getg (ios st.(1))) order in
-          Printf.sprintf "%s doc [%s] [%s]" (ord_chk (getg (ios st.(1))) order)
+          (* "dm": the serde data-model calls of Serialize (harness/src/shape.rs): a 2-tuple of two sequences with
+             length hints, of 2-tuples (key, value) and 3-tuples (source, target, edge value) of scalars *)
+          Printf.sprintf "%s doc [%s] [%s] dm T2(S%d(%s)S%d(%s))" (ord_chk (getg (ios st.(1))) order)
             (String.concat "" (List.map (fun (k, v) -> Printf.sprintf "[%s %s]" (nstr k) (zstr v)) ns))
             (String.concat "" (List.map (fun ((a, b), e) -> Printf.sprintf "[%s %s %s]" (nstr a) (nstr b) (nstr e)) es))
+            (List.length ns) (String.concat "" (List.map (fun _ -> "T2(__)") ns))
+            (List.length es) (String.concat "" (List.map (fun _ -> "T3(___)") es))
       | "grt" ->
           let (ns, es) = decompose keqb !h (getg (ios st.(1))) order in
           (match rebuild keqb ns es with
